@@ -86,6 +86,9 @@ type MboxSession struct {
 	MaxDials   int
 	Dials      atomic.Int64
 	Accepts    atomic.Int64
+	// HoldDials, while set, keeps the dial loop from starting its next
+	// attempt (a dialer in back-off).
+	HoldDials atomic.Bool
 	serverStop atomic.Bool
 
 	prevDone map[string]<-chan struct{}
@@ -223,6 +226,9 @@ func (m *MboxSession) StartClient() {
 		for n := 0; m.ctx.Err() == nil; n++ {
 			if m.MaxDials > 0 && n >= m.MaxDials {
 				return
+			}
+			for m.HoldDials.Load() && m.ctx.Err() == nil {
+				time.Sleep(10 * time.Millisecond)
 			}
 			m.Dials.Add(1)
 			// As grpc does (addrConn.createTransport): every connection
